@@ -49,6 +49,35 @@ example : Laws Free := free_laws
 example : (exNode.circuits 77).map (fun c => (c.unverified, c.retry.map (·.ident), c.hops.length))
     = some (some (2, 10), some 555, 0) := by decide
 
+/-! ## 0. the acceptance guards are the translated ones
+
+`step` runs `onCreatedG` / `onExtendedG`, which ask the guards GENERATED from community.py on every run
+(GenCrypto.lean: `genCreatedPairs`, `genCreatedAccepts`, `genExtendedAccepts` — path conditions of the call of
+`_ours_on_created_extended` and the test of the relay branch).  These three theorems are the obligations on the source:
+if the identifier comparison, the retry-cache lookup or the circuit-id test of the relay branch is dropped or altered in
+the code, they stop compiling — and with them everything below, which is proved through them. -/
+
+/-- on_created enters the relay branch iff a pending extend carries that number AND the CREATED names its reserved id -/
+theorem source_pairs_on_number_and_reserved_id (a b : Bool) : genCreatedPairs a b = (a && b) :=
+  genCreatedPairs_spec a b
+
+/-- on_created accepts an answer iff it is not the relay's, a retry cache exists AND the identifiers are equal -/
+theorem source_created_checks_identifier (a b c d : Bool) :
+    genCreatedAccepts a b c d = (!(a && b) && (c && d)) := genCreatedAccepts_spec a b c d
+
+/-- on_extended accepts an answer iff a retry cache exists AND the identifiers are equal -/
+theorem source_extended_checks_identifier (c d : Bool) : genExtendedAccepts c d = (c && d) :=
+  genExtendedAccepts_spec c d
+
+/-- what `step` executes is the reference semantics the remaining theorems talk about -/
+theorem step_runs_translated_guards (C : Crypto Tag Sess Blob) (n : Node Sess) (cid ident : Nat)
+    (key : Option Wire) (auth : Tag) (cands : Blob) (env : Env) :
+    step C n (.created cid ident key auth cands env) = onCreated C n cid ident key auth cands env ∧
+    step C n (.extended cid ident key auth cands env) = originAnswer C n cid ident key auth cands env :=
+  ⟨step_created_eq C n cid ident key auth cands env, step_extended_eq C n cid ident key auth cands env⟩
+
+example : genExtendedAccepts true false = false ∧ genCreatedAccepts false false true true = true := by decide
+
 /-! ## 1. what acceptance requires -/
 
 /-- A hop list changes ONLY by a created/extended answer for that very circuit whose identifier equals the
@@ -155,7 +184,7 @@ theorem answer_touches_one_circuit (C : Crypto Tag Sess Blob) (n : Node Sess) (c
     (step C n (.created cid ident key auth cands env)).1.circuits cid' = n.circuits cid' ∧
     (step C n (.extended cid ident key auth cands env)).1.circuits cid' = n.circuits cid' := by
   constructor
-  · simp only [step, onCreated]
+  · simp only [step, onCreatedG_eq, onExtendedG_eq, onCreated]
     split
     · split
       · rfl
@@ -163,7 +192,7 @@ theorem answer_touches_one_circuit (C : Crypto Tag Sess Blob) (n : Node Sess) (c
         · rfl
         · split <;> rfl
     · exact originAnswer_other C n cid ident key auth cands env cid' hc
-  · exact originAnswer_other C n cid ident key auth cands env cid' hc
+  · rw [step_extended_eq]; exact originAnswer_other C n cid ident key auth cands env cid' hc
 
 /-! ## 3. rejected answers leave the node unchanged -/
 
@@ -175,7 +204,7 @@ theorem wrong_identifier_rejected (C : Crypto Tag Sess Blob) (n : Node Sess) (ci
     step C n (.created cid ident key auth cands env) = (n, []) ∧
     step C n (.extended cid ident key auth cands env) = (n, []) := by
   have h := origin_reject C n cid ident key auth cands env (Or.inr ⟨c, h0, Or.inr (Or.inl ⟨r, hr, hid⟩)⟩)
-  exact ⟨by simp only [step, onCreated, pairing_none_of_creates hrel]; exact h, by simp only [step, onExtended]; exact h⟩
+  exact ⟨by simp only [step, onCreatedG_eq, onExtendedG_eq, onCreated, pairing_none_of_creates hrel]; exact h, by simp only [step, onCreatedG_eq, onExtendedG_eq, onExtended]; exact h⟩
 
 example : ((step Free exNode (.created 77 556 (some ⟨20, 0⟩) (.mac [dh 10 20] ⟨20, 0⟩) (.junk 0) ⟨11, 556, none⟩)).1.circuits
     77).map (fun c => c.hops.length) = some 0 := by decide
@@ -190,7 +219,7 @@ theorem no_outstanding_request_rejected (C : Crypto Tag Sess Blob) (n : Node Ses
     step C n (.extended cid ident key auth cands env) = (n, []) := by
   have h' := origin_reject C n cid ident key auth cands env
     (h.elim Or.inl (fun ⟨c, hc, hr⟩ => Or.inr ⟨c, hc, Or.inl hr⟩))
-  exact ⟨by simp only [step, onCreated, pairing_none_of_creates hrel]; exact h', by simp only [step, onExtended]; exact h'⟩
+  exact ⟨by simp only [step, onCreatedG_eq, onExtendedG_eq, onCreated, pairing_none_of_creates hrel]; exact h', by simp only [step, onCreatedG_eq, onExtendedG_eq, onExtended]; exact h'⟩
 
 example : exNode.circuits 78 = none ∧ exNode.creates 555 = none := by decide
 
@@ -204,7 +233,7 @@ theorem bad_auth_rejected (C : Crypto Tag Sess Blob) (n : Node Sess) (cid ident 
     step C n (.extended cid ident (some w) auth cands env) = (n, []) := by
   have h := origin_reject C n cid ident (some w) auth cands env
     (Or.inr ⟨c, h0, Or.inr (Or.inr (Or.inr ⟨b, x, w, hu, rfl, hbad⟩))⟩)
-  exact ⟨by simp only [step, onCreated, pairing_none_of_creates hrel]; exact h, by simp only [step, onExtended]; exact h⟩
+  exact ⟨by simp only [step, onCreatedG_eq, onExtendedG_eq, onCreated, pairing_none_of_creates hrel]; exact h, by simp only [step, onCreatedG_eq, onExtendedG_eq, onExtended]; exact h⟩
 
 /-- non-vacuity: outstanding attempt (2, 10); the genuine MAC but over a RE-ENCODED key (same point, enc 1) is rejected -/
 example : ((step Free exNode (.created 77 555 (some ⟨20, 1⟩) (.mac [dh 10 20] ⟨20, 0⟩) (.junk 0) ⟨11, 556, none⟩)).1.circuits
@@ -229,8 +258,8 @@ theorem duplicate_rejected (C : Crypto Tag Sess Blob) (L : Laws C) (n : Node Ses
     let n' := (step C n (.extended cid ident key auth cands env)).1
     step C n' (.extended cid ident key auth cands env') = (n', []) := by
   intro n'
-  have hn' : n' = (originAnswer C n cid ident key auth cands env).1 := rfl
-  simp only [step, onExtended]
+  have hn' : n' = (originAnswer C n cid ident key auth cands env).1 := by simp only [n', step_extended_eq]
+  simp only [step, onCreatedG_eq, onExtendedG_eq, onExtended]
   cases h0 : n.circuits cid with
   | none =>
     have : n' = n := by
@@ -262,8 +291,8 @@ theorem late_answer_rejected (C : Crypto Tag Sess Blob) (L : Laws C) (n : Node S
     step C n' (.extended cid ident (some w) (C.mac [dh x w.pt] w) cands env') = (n', []) := by
   intro n'
   have hc : n'.circuits cid = (onTimeout (Tag := Tag) (Blob := Blob) n.me cid c env).1 := by
-    simp only [n', step, retryTimeout, h0, setCirc_circ, if_true]
-  simp only [step, onExtended]
+    simp only [n', step, onCreatedG_eq, onExtendedG_eq, retryTimeout, h0, setCirc_circ, if_true]
+  simp only [step, onCreatedG_eq, onExtendedG_eq, onExtended]
   apply origin_reject
   rcases onTimeout_resent (Tag := Tag) (Blob := Blob) n.me cid c env with h | ⟨c1, h1, _, _, ⟨_, hr1⟩ | ⟨t, r1, hu1, _, _⟩⟩
   · left; rw [hc]; exact h
@@ -289,7 +318,7 @@ theorem resend_rejects_previous_answer (C : Crypto Tag Sess Blob) (L : Laws C) (
       step C (n.setCirc cid res).1 (.extended cid ident (some w) (C.mac [dh x w.pt] w) cands env')
         = ((n.setCirc cid res).1, []) := by
     intro res hres
-    simp only [step, onExtended]
+    simp only [step, onCreatedG_eq, onExtendedG_eq, onExtended]
     apply origin_reject
     have hc : (n.setCirc cid res).1.circuits cid = res.1 := by simp [setCirc_circ]
     rcases hres with h | ⟨c1, h1, _, _, ⟨_, hr1⟩ | ⟨t, r1, hu1, _, _⟩⟩
@@ -301,12 +330,12 @@ theorem resend_rejects_previous_answer (C : Crypto Tag Sess Blob) (L : Laws C) (
   constructor
   · intro n'
     have : n' = (n.setCirc cid (sendExtend (Tag := Tag) (Blob := Blob) n.me cid c targets tries env)).1 := by
-      simp only [n', step, h0]
+      simp only [n', step, onCreatedG_eq, onExtendedG_eq, h0]
     rw [this]
     exact key _ (sendExtend_resent _ _ _ _ _ _)
   · intro n'
     have : n' = (n.setCirc cid (sendInitialCreate (Tag := Tag) (Blob := Blob) n.me cid c targets tries env)).1 := by
-      simp only [n', step, h0]
+      simp only [n', step, onCreatedG_eq, onExtendedG_eq, h0]
     rw [this]
     exact key _ (sendInitialCreate_resent _ _ _ _ _ _)
 
@@ -336,7 +365,7 @@ theorem first_hop_duplicate_late_resend_rejected (C : Crypto Tag Sess Blob) (L :
     have hn : n' = (step C n (.extended cid ident key auth cands env)).1 := by
       simp only [n', created_eq_extended C n cid ident key auth cands env hrel]
     have hcr : n'.creates ident = none := by
-      rw [hn]; simp only [step, onExtended, originAnswer_creates]; exact hrel
+      rw [hn]; simp only [step, onCreatedG_eq, onExtendedG_eq, onExtended, originAnswer_creates]; exact hrel
     rw [created_eq_extended C n' cid ident key auth cands env' hcr, hn]
     exact duplicate_rejected C L n cid ident key auth cands env env'
       (fun c' b x' hc hu => by rw [h0] at hc; cases hc; exact hdup b x' hu)
@@ -390,7 +419,8 @@ theorem no_outsider_holds_hop_keys (C : Crypto Tag Sess Blob) (L : Laws C) (evs 
 
 /-- non-vacuity: after an ephemeral-key substitution with a recomputed MAC (attacker ephemeral 30) the originator DOES
     accept — and the accepted keys are KDF(DH(10,30) ++ DH(10,2)), which need secret 10 or the static secret 2 -/
-example : ((step Free exNode (.created 77 555 (some ⟨30, 0⟩) (.mac [dh 30 10] ⟨30, 0⟩) (.junk 0) ⟨11, 556, none⟩)).1.circuits
+example : ((step Free exNode (.created 77 555 (some ⟨30, 0⟩) (.mac [dh 30 10] ⟨30, 0⟩) (.enc [dh 10 30, dh 2 10] [0, 0])
+    ⟨11, 556, none⟩)).1.circuits
     77).map (fun c => c.hops.map (fun h => (h.peer, h.keys))) = some [(2, [dh 10 30, dh 2 10])] := by decide
 
 /-! ## 5. honest exchanges agree -/
@@ -765,8 +795,8 @@ theorem second_join_refused (C : Crypto Tag Sess Blob) (n : Node Sess) (cid iden
     (key : Option Wire) (y : Key) (offered : List Key) (hc : (n.created cid).isSome) :
     step C n (.join cid ident nodePk key y offered) = (n, []) := by
   cases key with
-  | none => simp [step, joinCircuit]
-  | some w => simp [step, joinCircuit, hc]
+  | none => simp [step, onCreatedG_eq, onExtendedG_eq, joinCircuit]
+  | some w => simp [step, onCreatedG_eq, onExtendedG_eq, joinCircuit, hc]
 
 /-- on_create with the default (non-suspending) policy is "guards, then join_circuit" -/
 theorem on_create_is_guarded_join (C : Crypto Tag Sess Blob) (n : Node Sess) (cid ident nodePk : Nat)
@@ -777,7 +807,7 @@ theorem on_create_is_guarded_join (C : Crypto Tag Sess Blob) (n : Node Sess) (ci
       then step C n (.join cid ident nodePk key y offered) else (n, []) := by
   cases hj : n.canJoin <;> cases hc : (n.created cid).isSome <;>
     cases hu : ((n.circuits cid).isSome || (n.relays cid).isSome || (n.exits cid).isSome) <;>
-    cases key <;> simp [step, onCreate, joinCircuit, hj, hc, hu]
+    cases key <;> simp [step, onCreatedG_eq, onExtendedG_eq, onCreate, joinCircuit, hj, hc, hu]
 
 /-- non-vacuity: two copies of a CREATE passed the guards while suspended; the first join installs keys for
     ephemeral 20, the second (ephemeral 21) changes nothing -/
@@ -799,11 +829,11 @@ theorem pairing_under_used_id_refused (C : Crypto Tag Sess Blob) (n : Node Sess)
     rcases hused with h | h | h <;> simp [h]
   have hp : pairing? n cid ident = some req := by simp [pairing?, hreq, hcid]
   cases hex : n.exits req.fromCid with
-  | none => simp [step, onCreated, hp, hex]
+  | none => simp [step, onCreatedG_eq, onExtendedG_eq, onCreated, hp, hex]
   | some ex =>
     by_cases hpeer : (ex.peer != req.peer) = true
-    · simp [step, onCreated, hp, hex, hpeer]
-    · simp [step, onCreated, hp, hex, hpeer, hb]
+    · simp [step, onCreatedG_eq, onExtendedG_eq, onCreated, hp, hex, hpeer]
+    · simp [step, onCreatedG_eq, onExtendedG_eq, onCreated, hp, hex, hpeer, hb]
 
 /-- non-vacuity (the attack found by review, on the model of the repaired code): relay 2 reserved id 88 for the
     victim's extension; the next hop squats on 88 with a circuit of its own and extends it (id 90); the victim's
@@ -855,7 +885,7 @@ theorem timeout_after_first_hop_sends_no_create (C : Crypto Tag Sess Blob) (n : 
     (c : Circ Sess) (env : Env) (hinv : NoCreateRetryAfterHop n) (h0 : n.circuits cid = some c)
     (hne : c.hops ≠ []) :
     ∀ o ∈ (step C n (.retryTimeout cid env)).2, ∀ i k p w, o.msg ≠ Msg.create i k p w := by
-  simp only [step, retryTimeout, h0, Node.setCirc]
+  simp only [step, onCreatedG_eq, onExtendedG_eq, retryTimeout, h0, Node.setCirc]
   unfold onTimeout
   cases hr : c.retry with
   | none => intro o ho; simp at ho
@@ -876,12 +906,14 @@ theorem timeout_after_first_hop_sends_no_create (C : Crypto Tag Sess Blob) (n : 
         simp
 
 /-- non-vacuity: `Node.init` satisfies the invariant; and the scenario of the defect on the model of the repaired code:
-    hop 2 accepted with an undecryptable candidate list → no retry cache is left, the timeout does nothing -/
+    hop 2 accepted, its (decodable) candidate list holds only unparseable keys so send_extend raises → no retry cache is
+    left, the timeout does nothing (an undecodable list removes the circuit altogether since fix 2f0e945) -/
 example : NoCreateRetryAfterHop (Node.init 1 false false : Node Secret) := by
   intro cid c h; simp [Node.init] at h
 
 example :
-    let n := (step Free exNode (.created 77 555 (some ⟨20, 0⟩) (.mac [dh 10 20] ⟨20, 0⟩) (.junk 9) ⟨11, 556, none⟩)).1
+    let n := (step Free exNode (.created 77 555 (some ⟨20, 0⟩) (.mac [dh 10 20] ⟨20, 0⟩)
+      (.enc [dh 10 20, dh 2 10] [badKey, badKey]) ⟨11, 556, none⟩)).1
     ((n.circuits 77).map (fun c => (c.hops.map Hop.peer, c.retry)) = some ([2], none)) ∧
       (step Free n (.retryTimeout 77 ⟨12, 557, none⟩)).2.length = 0 := by decide
 
